@@ -31,7 +31,8 @@ REQUIRED = {"eval.post": 1000, "triggered_reruns": 100, "kind:tr": 10,
             "kind:tr_before_soc": 3}
 MIN_NONTRIVIAL = {"quick": 15, "thorough": 60}
 PLAN = [("target", 450, 7000), ("callback", 350, 5000), ("feas", 250, 4000),
-        ("multi", 150, 2500), ("soc", 400, 5000), ("bartarget", 150, 2000)]
+        ("multi", 150, 2500), ("soc", 400, 5000), ("bartarget", 150, 2000),
+        ("tinyviol", 60, 600)]
 
 
 def cases(tier, seed):
@@ -77,6 +78,38 @@ def run_case(case, judge="c09"):
             force_kind = "tr_before_soc"
             fam = str(rng.choice(["target", "callback", "multi"],
                                  p=[0.7, 0.1, 0.2]))
+    elif fam == "tinyviol":
+        # feasibility_tol = 0 and a constraint that is violated by exactly
+        # 5e-16 at every evaluation (the value is injected, so the violation
+        # carries no rounding): no evaluation satisfies a target / feasibility
+        # request, whatever the objective
+        spec = base_spec(rng, "target")
+        n = spec["n"]
+        x0 = np.asarray(spec["x0"])
+        spec["nl"] = [{"comps": [gen.nl_component(rng, n)], "form": "nlc",
+                       "lb": [-math.inf], "ub": [0.0]}]
+        spec.pop("lin", None)
+        spec.pop("bounds", None)
+        spec["con_kind"] = "nl"
+        spec["faults"] = [{"target": "con", "j": 0, "comp": 0, "val": "tiny",
+                           "when": {"all": True}}]
+        spec["options"]["feasibility_tol"] = 0.0
+        spec["options"]["maxfev"] = int(rng.integers(8, 30))
+        spec["options"].pop("scale", None)
+        if rng.random() < 0.7 and spec["obj"]["kind"] != "none":
+            spec["options"]["target"] = 1e25
+        else:
+            spec["obj"] = {"kind": "none"}
+        spec.pop("rtype", None)
+        rec = mrun.run(spec)
+        counts = e2e.base_counts(rec)
+        viols, info = oracles.o_c09(rec)
+        counts["tinyviol_runs"] = 1
+        return e2e.record(case, e2e.attach(viols, spec, rec),
+                          nt="tinyviol|%s" % (rec.res.status if rec.res
+                                              is not None else "exc"),
+                          tags=["fam:tinyviol"], counts=counts,
+                          skipped=bool(info.get("ambiguous")))
     elif fam == "bartarget":
         # targets at / beyond the extreme barrier with objective values that
         # are NaN, infinite or huge at some evaluations
